@@ -324,8 +324,9 @@ static void RunCGateway(Case & c, bool micro, bool cSends)
    cpp.SetDataIO(DummyDataIORef(cSends ? rio : sio));
    std::vector<std::string> sent, got; Recv recv;
    MMessageGateway * mg = micro ? NULL : MGAllocMessageGateway();
-   std::vector<uint8> inBuf(70000), outBuf(70000); UMessageGateway ug; if (micro) UGGatewayInitialize(&ug, &inBuf[0], (uint32)inBuf.size(), &outBuf[0], (uint32)outBuf.size());
-   const uint32 n = 1+c.bs.u8()%6;
+   const bool microQueues = (micro)&&(cSends)&&(c.bs.flip());     // the micro sender keeps preparing Messages while earlier ones are still (partly) in its output buffer, which is then a few Messages large
+   std::vector<uint8> inBuf(70000), outBuf(microQueues ? 200+c.bs.range(0, 2000) : 70000); UMessageGateway ug; if (micro) UGGatewayInitialize(&ug, &inBuf[0], (uint32)inBuf.size(), &outBuf[0], (uint32)outBuf.size()); bool microQueuedBehindPending = false;
+   const uint8_t nb = c.bs.u8(); const uint32 n = microQueues ? 3+nb%10 : 1+nb%6;
    for (uint32 i=0; i<n; i++)
    {
       Message msg; MMsg mod; GenCommonMsg(c, msg, mod, micro);
@@ -335,10 +336,19 @@ static void RunCGateway(Case & c, bool micro, bool cSends)
       {
          if (micro)
          {
-            if (UGHasBytesToOutput(&ug)) {/* the micro gateway holds one outgoing Message at a time: flush first */ c.plan.generous = true; for (int r=0; (r<100000)&&(UGHasBytesToOutput(&ug)); r++) {(void) UGDoOutput(&ug, ~0u, CSend, &cio); if (cpp.DoInput(recv).IsError()) vf::Fail("C++ receiver error");} c.plan.generous = false;}
-            UMessage um = UGGetOutgoingMessage(&ug, mod.what);
-            if (UMIsMessageValid(&um) == UFalse) vf::Fail("UGGetOutgoingMessage returned an invalid UMessage");
-            if (BuildUM(&um, mod) == false) {UGOutgoingMessageCancelled(&ug, &um); vf::Count("micro_build_refused"); continue;}
+            auto flush = [&]{c.plan.generous = true; for (int r=0; (r<100000)&&(UGHasBytesToOutput(&ug)); r++) {(void) UGDoOutput(&ug, ~0u, CSend, &cio); if (cpp.DoInput(recv).IsError()) vf::Fail("C++ receiver error");} c.plan.generous = false;};
+            if ((microQueues == false)&&(UGHasBytesToOutput(&ug))) flush();     // (one Message in the output buffer at a time)
+            const bool pending = (UGHasBytesToOutput(&ug) != UFalse);
+            UMessage um = UGGetOutgoingMessage(&ug, mod.what); bool built = (UMIsMessageValid(&um) != UFalse)&&(BuildUM(&um, mod));
+            if ((built == false)&&(pending))
+            {
+               // no room behind what is still waiting to go out: let it go out, then try again with the whole buffer
+               if (UMIsMessageValid(&um)) UGOutgoingMessageCancelled(&ug, &um);
+               flush(); um = UGGetOutgoingMessage(&ug, mod.what); if (UMIsMessageValid(&um) == UFalse) vf::Fail("UGGetOutgoingMessage returned an invalid UMessage from an empty gateway"); built = BuildUM(&um, mod);
+            }
+            else if (UMIsMessageValid(&um) == UFalse) vf::Fail("UGGetOutgoingMessage returned an invalid UMessage");
+            else if ((built)&&(pending)) microQueuedBehindPending = true;
+            if (built == false) {UGOutgoingMessageCancelled(&ug, &um); vf::Count("micro_build_refused"); continue;}
             UGOutgoingMessagePrepared(&ug, &um);
          }
          else
@@ -392,7 +402,7 @@ static void RunCGateway(Case & c, bool micro, bool cSends)
    const char * nm = micro ? (cSends ? "micro->C++" : "C++->micro") : (cSends ? "mini->C++" : "C++->mini");
    if (got.size() != sent.size()) vf::Fail("%s: sent %zu Messages, received %zu", nm, sent.size(), got.size());
    for (size_t i=0; i<sent.size(); i++) if (got[i] != sent[i]) vf::Fail("%s: Message %zu arrived altered: sent %s got %s", nm, i, vf::Hex(sent[i].data(), sent[i].size(), 60).c_str(), vf::Hex(got[i].data(), got[i].size(), 60).c_str());
-   c.nMsgs = (uint32) sent.size(); c.desc = nm;
+   c.nMsgs = (uint32) sent.size(); c.desc = nm; if (microQueuedBehindPending) vf::Count("case_micro_sender_prepared_a_message_behind_pending_output");
 }
 
 extern "C" int vf_run_case(const uint8_t * data, size_t size)
